@@ -550,3 +550,224 @@ Example C02_nonvacuous_bodies :
    sstatus (br_s r) = ST_FAILED /\ br_ok r = false /\ valid (br_s r) = true) /\
   ffin (fst (bo_eval ex_parab 0 [PrimFloat.zero])) = true.
 Proof. vm_compute. repeat split; try reflexivity; try discriminate. Qed.
+
+(* ==================================================================================================================== *)
+(* Extension 3: the remaining non-line-search bodies inside the model, as whole runs -- src/solver/ellipsoid.cpp, osga.cpp,  *)
+(* universal.cpp (pgm, dgm, fgm), asga.cpp (asga2, asga4): model C02_Bodies2_Defs.body2_run = the skeleton b2_run over a      *)
+(* `rule2` whose pass is a PROGRAM of evaluation requests (with the inner backtracking loop and its own cap), composed with   *)
+(* C02_Defs (state, update_if_better (both overloads), value_test, done). Every theorem quantifies over EVERY oracle record    *)
+(* (objective; Eigen reductions dot / lpNorm<2>; libm exp; gHg and the updated (x, H) of the n-D ellipsoid step), every        *)
+(* configuration (any binary64 parameter, any integer max_evals / patience / lsearch_max_iters -- for asga2 / asga4:           *)
+(* lsearch_max_iters >= 1, its registered domain is [10, 1000]), every starting point and every amount of fuel.               *)
+(* ==================================================================================================================== *)
+From LNGen Require Import Src_c02c.
+From LN Require Import C02_Bodies2_Defs C02_Bodies2 C02_Bodies2_Statements.
+
+(* (1) termination within the budget, with the PROVED per-pass bound B = pass_bound b cfg (fcalls + gcalls of one pass of the
+   outer loop): 2 for ellipsoid (one evaluation), 3 for osga (one with, one without sub-gradient), 2 / 3 / 4 x lsearch_max_iters
+   for pgm / dgm / fgm, 4 x lsearch_max_iters for asga2 / asga4 (the inner loop is capped by that parameter -- translated from
+   the source: C02_bodies2_kernels). With fuel > max_evals - 2 the run never ends for lack of fuel; fcalls = evaluations
+   requested, gcalls <= fcalls; fcalls + gcalls <= max(2, max_evals - 1 + B); reported counts <= the function's counters *)
+Theorem C02_bodies2_budget : forall b orc cfg fuel x0, asga_cap_ok b cfg ->
+  let r := body2_run b orc cfg fuel x0 in
+  (Z.max 0 (c2_maxev cfg - 2) < Z.of_nat fuel -> rs_exit r <> BX_FUEL) /\
+  c_fc (rs_c r) = c_ne (rs_c r) /\ 0 <= c_gc (rs_c r) <= c_ne (rs_c r) /\ 1 <= c_ne (rs_c r) /\
+  0 <= rs_iters r <= rs_dones r /\
+  calls (rs_c r) <= Z.max 2 (c2_maxev cfg - 1 + pass_bound b cfg) /\
+  sfcalls (rs_s r) <= c_fc (rs_c r) /\ sgcalls (rs_s r) <= c_gc (rs_c r).
+Proof. exact bodies2_budget. Qed.
+Print Assumptions C02_bodies2_budget.
+
+Theorem C02_bodies2_fuel : forall cfg, Z.max 0 (c2_maxev cfg - 2) < Z.of_nat (b2_fuel cfg).
+Proof. exact b2_fuel_enough. Qed.
+Print Assumptions C02_bodies2_fuel.
+
+(* the same for ANY rule whose loop condition is the budget test, whose passes cost at most B and make at least one evaluation
+   whenever their iter_ok can be true (done() stops otherwise), and that hand only evaluated points to update_if_better *)
+Theorem C02_bodies2_budget_any_rule : forall A orc (R : rule2 A) cfg B three J, rule_ok orc R B three J -> forall fuel x0,
+  let r := b2_run orc R cfg fuel x0 in
+  (Z.max 0 (c2_maxev cfg - 2) < Z.of_nat fuel -> b2_exit r <> BX_FUEL) /\
+  c_fc (b2_c r) = c_ne (b2_c r) /\ 0 <= c_gc (b2_c r) <= c_ne (b2_c r) /\ 1 <= c_ne (b2_c r) /\
+  0 <= b2_iters r <= b2_dones r /\
+  calls (b2_c r) <= Z.max 2 (c2_maxev cfg - 1 + B) /\
+  sfcalls (b2_s r) <= c_fc (b2_c r) /\ sgcalls (b2_s r) <= c_gc (b2_c r).
+Proof. intros A orc R cfg B three J (HL & HJ0 & HP). exact (generic2_budget A orc R cfg B three J HL HJ0 HP). Qed.
+Print Assumptions C02_bodies2_budget_any_rule.
+
+(* the proved bound against the property's `max_evals + 1100 + 8 dim`: IMPLIED for every body when lsearch_max_iters <= 100 (the
+   default, and the whole registered domain of solver::universal::lsearch_max_iters): B <= 400; NOT implied on the upper part of
+   asga's domain [10, 1000] (B = 4000 for lsearch_max_iters = 1000) *)
+Theorem C02_bodies2_property_constant : forall b cfg,
+  c2_lsmax cfg <= 100 -> 0 <= c2_n cfg -> pass_bound b cfg <= 400 /\ pass_bound b cfg <= 1100 + 8 * c2_n cfg.
+Proof. exact pass_bound_property_constant. Qed.
+Print Assumptions C02_bodies2_property_constant.
+Theorem C02_bodies2_property_constant_asga_domain_refuted :
+  exists b cfg, c2_lsmax cfg = 1000 /\ c2_n cfg = 16 /\ 1100 + 8 * c2_n cfg < pass_bound b cfg.
+Proof. exact pass_bound_asga_domain_refuted. Qed.
+Print Assumptions C02_bodies2_property_constant_asga_domain_refuted.
+
+(* (2a) C02_triple_honest discharged for these clients: the returned point and value are an answer of the oracle to one of the
+   evaluations the run requested; the returned sub-gradient too, except for osga (it calls the 2-argument update_if_better:
+   its state.gx() stays the sub-gradient at x0) *)
+Theorem C02_bodies2_honest : forall b orc cfg fuel x0, asga_cap_ok b cfg ->
+  let r := body2_run b orc cfg fuel x0 in
+  exists k, 0 <= k < c_ne (rs_c r) /\ fst (o2_eval orc k (sx (rs_s r))) = sfx (rs_s r) /\
+            (b <> B2Osga -> snd (o2_eval orc k (sx (rs_s r))) = sgx (rs_s r)).
+Proof. exact bodies2_honest. Qed.
+Print Assumptions C02_bodies2_honest.
+
+(* (2b) finite f(x0) => the returned value is finite and fx <= f(x0) in binary64 (all seven only ever call update_if_better) *)
+Theorem C02_bodies2_best : forall b orc cfg fuel x0, asga_cap_ok b cfg ->
+  let r := body2_run b orc cfg fuel x0 in
+  ffin (fst (o2_eval orc 0 x0)) = true ->
+  ffin (sfx (rs_s r)) = true /\ PrimFloat.leb (sfx (rs_s r)) (fst (o2_eval orc 0 x0)) = true.
+Proof. exact bodies2_best. Qed.
+Print Assumptions C02_bodies2_best.
+
+(* (3a) status facts: one of the three; `converged` only for a valid state from a done() call with both flags; `failed` only from a
+   done() call with iter_ok = false or an invalid state; `max_iters` only through the budget test, lack of fuel, or asga's return
+   before the loop (gradient test below DBL_EPSILON at x0); unless failed, the state is valid once a done() call was made *)
+Theorem C02_bodies2_status : forall b orc cfg fuel x0, asga_cap_ok b cfg ->
+  let r := body2_run b orc cfg fuel x0 in
+  let s := rs_s r in
+  status_ok (sstatus s) /\
+  (sstatus s = ST_CONVERGED ->
+     valid s = true /\ rs_ok r = true /\ rs_conv r = true /\ (rs_exit r = BX_DONE \/ rs_exit r = BX_ZERO)) /\
+  (sstatus s = ST_FAILED ->
+     1 <= rs_dones r /\ (rs_exit r = BX_DONE \/ rs_exit r = BX_ZERO) /\ (rs_ok r = false \/ valid s = false)) /\
+  (sstatus s = ST_MAX_ITERS ->
+     (rs_exit r = BX_BUDGET /\ c2_maxev cfg <= calls (rs_c r) \/ rs_exit r = BX_FUEL \/ rs_exit r = BX_PRE \/
+      rs_exit r = BX_ZERO /\ rs_conv r = false /\ rs_ok r = true) /\
+     (1 <= rs_dones r -> valid s = true)) /\
+  (sstatus s <> ST_FAILED -> 1 <= rs_dones r -> valid s = true).
+Proof. exact bodies2_status. Qed.
+Print Assumptions C02_bodies2_status.
+
+(* (3b) what `converged` means, body by body.
+   ellipsoid: sqrt(gHg) < epsilon for the gHg of the centre the last pass started from (NOT of the returned point), that pass having
+   passed the early test (gHg >= DBL_EPSILON or NaN) -- or the early exit gHg < DBL_EPSILON at the current centre *)
+Theorem C02_ellipsoid_converged : forall orc cfg fuel x0,
+  let r := ell_run orc cfg fuel x0 in
+  sstatus (b2_s r) = ST_CONVERGED ->
+  valid (b2_s r) = true /\
+  ((b2_exit r = BX_DONE /\ PrimFloat.ltb (PrimFloat.sqrt (ell_gHg orc cfg (b2_prev r))) (c2_eps cfg) = true /\
+    PrimFloat.ltb (ell_gHg orc cfg (b2_prev r)) f_eps = false) \/
+   (b2_exit r = BX_ZERO /\ PrimFloat.ltb (ell_gHg orc cfg (b2_prev r)) f_eps = true)).
+Proof. exact ellipsoid_converged. Qed.
+Print Assumptions C02_ellipsoid_converged.
+
+(* osga: eta_hat < epsilon OR value_test(patience) < epsilon on a valid best state -- or the early test |state.gx()|_inf < epsilon0 *)
+Theorem C02_osga_converged : forall orc cfg fuel x0,
+  let r := osga_run orc cfg fuel x0 in
+  sstatus (b2_s r) = ST_CONVERGED ->
+  valid (b2_s r) = true /\
+  ((b2_exit r = BX_DONE /\ exists eta_hat,
+      PrimFloat.ltb eta_hat (c2_eps cfg) || PrimFloat.ltb (value_test (b2_s r) (c2_patience cfg)) (c2_eps cfg) = true) \/
+   (b2_exit r = BX_ZERO /\ PrimFloat.ltb (maxabs (sgx (b2_s r))) (c2_eps0 cfg) = true)).
+Proof. exact osga_converged. Qed.
+Print Assumptions C02_osga_converged.
+
+(* pgm / dgm / fgm / asga2 / asga4: the inner search accepted a step (iter_ok) AND value_test(patience) < epsilon on the returned state *)
+Theorem C02_universal_asga_converged : forall orc cfg fuel x0,
+  vt_conv_statement cfg (pgm_run orc cfg fuel x0) /\ vt_conv_statement cfg (dgm_run orc cfg fuel x0) /\
+  vt_conv_statement cfg (fgm_run orc cfg fuel x0) /\
+  (1 <= c2_lsmax cfg -> vt_conv_statement cfg (asga2_run orc cfg fuel x0) /\ vt_conv_statement cfg (asga4_run orc cfg fuel x0)).
+Proof. exact universal_asga_converged. Qed.
+Print Assumptions C02_universal_asga_converged.
+
+(* (4) what keeps the iterations well defined.
+   ellipsoid: a pass whose gHg is below DBL_EPSILON leaves the loop through done() WITHOUT executing the update (no evaluation, same
+   counters, same centre and shape matrix); hence on the executed path a finite gHg is >= DBL_EPSILON: positive, with a finite
+   positive binary64 square root (Flocq): the divisions by sqrt(gHg) and gHg never divide by zero *)
+Theorem C02_ellipsoid_guard :
+  (forall orc cfg st, PrimFloat.ltb (ell_gHg orc cfg (b2_a st)) f_eps = true ->
+     let r := b2_iter orc (ell_rule orc cfg) st in
+     snd r = true /\ b2_exit (fst r) = BX_ZERO /\ b2_iters (fst r) = b2_iters st /\ b2_c (fst r) = b2_c st /\ b2_a (fst r) = b2_a st) /\
+  (forall g, PrimFloat.is_finite g = true -> PrimFloat.ltb g f_eps = false ->
+     PrimFloat.ltb PrimFloat.zero g = true /\ PrimFloat.is_finite (PrimFloat.sqrt g) = true /\
+     PrimFloat.ltb PrimFloat.zero (PrimFloat.sqrt g) = true).
+Proof. split; [exact ellipsoid_guard|exact guard_sqrt_pos]. Qed.
+Print Assumptions C02_ellipsoid_guard.
+
+(* universal / asga: the inner backtracking loop ends by the descent test (iter_ok), by a non-finite value (universal), or because
+   its counter reached the cap *)
+Theorem C02_inner_loops_exit : forall orc cfg,
+  (forall a i0 c, ui_k i0 = 0 ->
+     let i := fst (p_run (o2_eval orc) (cap_loop (Z.to_nat (pgm_cap cfg)) (fun i => src_pgm_inner (ui_k i) (pgm_cap cfg) (ui_ok i) (ffin (ui_f1 i))) (pgm_body orc cfg a) i0) c) in
+     ui_ok i = true \/ ffin (ui_f1 i) = false \/ pgm_cap cfg <= ui_k i) /\
+  (forall a i0 c, ui_k i0 = 0 ->
+     let i := fst (p_run (o2_eval orc) (cap_loop (Z.to_nat (dgm_cap cfg)) (fun i => src_dgm_inner (ui_k i) (dgm_cap cfg) (ui_ok i) (ffin (ui_f1 i))) (dgm_body orc cfg a) i0) c) in
+     ui_ok i = true \/ ffin (ui_f1 i) = false \/ dgm_cap cfg <= ui_k i) /\
+  (forall a i0 c, ui_k i0 = 0 ->
+     let i := fst (p_run (o2_eval orc) (cap_loop (Z.to_nat (fgm_cap cfg)) (fun i => src_fgm_inner (ui_k i) (fgm_cap cfg) (ui_ok i) (ffin (ui_f1 i) && ffin (ui_f2 i))) (fgm_body orc cfg a) i0) c) in
+     ui_ok i = true \/ (ffin (ui_f1 i) && ffin (ui_f2 i)) = false \/ fgm_cap cfg <= ui_k i) /\
+  (forall x0 a i0 c, gi_p i0 = 0 ->
+     let i := fst (p_run (o2_eval orc) (cap_loop (Z.to_nat (asga2_cap cfg)) (fun i => src_asga2_inner (gi_p i) (asga2_cap cfg) (gi_ok i)) (asga2_body orc cfg x0 a) i0) c) in
+     gi_ok i = true \/ asga2_cap cfg <= gi_p i) /\
+  (forall a i0 c, gi_p i0 = 0 ->
+     let i := fst (p_run (o2_eval orc) (cap_loop (Z.to_nat (asga4_cap cfg)) (fun i => src_asga4_inner (gi_p i) (asga4_cap cfg) (gi_ok i)) (asga4_body orc cfg a) i0) c) in
+     gi_ok i = true \/ asga4_cap cfg <= gi_p i).
+Proof. exact inner_loops_exit. Qed.
+Print Assumptions C02_inner_loops_exit.
+
+(* the model runs the inner loops with fuel = the cap; the C++ loop has no fuel: more fuel changes nothing when the condition tests
+   the counter against the cap *)
+Theorem C02_inner_loop_fuel : forall (S : Type) ev (cnt : S -> Z) (cap : Z) (cond : S -> bool) (body : S -> prog S),
+  (forall s c, cond s = true -> cnt (fst (p_run ev (body s) c)) = cnt s + 1) ->
+  (forall s, cond s = true -> cnt s < cap) ->
+  forall extra fuel s c, cap <= cnt s + Z.of_nat fuel ->
+  p_run ev (cap_loop (fuel + extra) cond body s) c = p_run ev (cap_loop fuel cond body s) c.
+Proof. intros S. exact (@cap_loop_fuel S). Qed.
+Print Assumptions C02_inner_loop_fuel.
+
+(* osga: "alpha stays positive" is false in binary64 (kappa = 1000 is inside its registered domain: exp(-kappa) = 0) *)
+Theorem C02_osga_alpha_positive_refuted : osga_alpha_positive_refuted_statement.
+Proof. exact osga_alpha_positive_refuted. Qed.
+Print Assumptions C02_osga_alpha_positive_refuted.
+
+(* the translated decisions of the four source files are what the proofs assume (fails when they change): loop conditions, flags of
+   the early tests and after an evaluation, the 1-D test and which factor scales H0, osga's two selections, and -- seeded change
+   C02/3 -- WHICH integer parameter caps the inner loop of pgm / dgm / fgm / asga2 / asga4, and the condition of that loop *)
+Theorem C02_bodies2_kernels :
+  (forall fc gc m, src_loop_ellipsoid fc gc m = (fc + gc <? m)) /\ (forall fc gc m, src_loop_osga fc gc m = (fc + gc <? m)) /\
+  (forall fc gc m, src_loop_pgm fc gc m = (fc + gc <? m)) /\ (forall fc gc m, src_loop_dgm fc gc m = (fc + gc <? m)) /\
+  (forall fc gc m, src_loop_fgm fc gc m = (fc + gc <? m)) /\ (forall fc gc m, src_loop_asga2 fc gc m = (fc + gc <? m)) /\
+  (forall fc gc m, src_loop_asga4 fc gc m = (fc + gc <? m)) /\
+  (forall v, src_ell_zero_exit v = v) /\ src_ell_zero_ok = true /\ src_ell_zero_conv = true /\
+  (forall n, src_ell_1d n = (n =? 1)) /\ (forall n, src_ell_H0_choice n = if n =? 1 then 1 else 2) /\
+  (forall v, src_ell_iter_ok v = v) /\ (forall v, src_ell_conv v = v) /\
+  (forall v, src_osga_zero_exit v = v) /\ src_osga_zero_conv = true /\ (forall v, src_osga_zero_ok v = v) /\
+  (forall v, src_osga_pick1 v = if v then 1 else 0) /\ (forall v, src_osga_pick2 v = if v then 1 else 0) /\
+  (forall v, src_osga_iter_ok v = v) /\ (forall a b, src_osga_conv a b = a || b) /\
+  (forall l p m, src_pgm_cap l p m = l) /\ (forall l p m, src_dgm_cap l p m = l) /\ (forall l p m, src_fgm_cap l p m = l) /\
+  (forall l p m, src_asga2_cap l p m = l) /\ (forall l p m, src_asga4_cap l p m = l) /\
+  (forall k cap ok fin, src_pgm_inner k cap ok fin = (k <? cap) && negb ok && fin) /\
+  (forall k cap ok fin, src_dgm_inner k cap ok fin = (k <? cap) && negb ok && fin) /\
+  (forall k cap ok fin, src_fgm_inner k cap ok fin = (k <? cap) && negb ok && fin) /\
+  (forall k cap ok, src_asga2_inner k cap ok = (k <? cap) && negb ok) /\
+  (forall k cap ok, src_asga4_inner k cap ok = (k <? cap) && negb ok) /\
+  (forall v, src_pgm_conv v = v) /\ (forall v, src_dgm_conv v = v) /\ (forall v, src_fgm_conv v = v) /\
+  (forall v, src_asga2_conv v = v) /\ (forall v, src_asga4_conv v = v).
+Proof. exact bodies2_kernels. Qed.
+Print Assumptions C02_bodies2_kernels.
+
+(* non-vacuity: runs of the seven models that converge (each through its own criterion), take the early exit, leave through the
+   budget test, return before the loop (asga), fail on a NaN value keeping a valid best state; the hypotheses are satisfiable *)
+Example C02_nonvacuous_bodies2 :
+  (let r := body2_run B2Ell ex2_parab ex2_c1 (b2_fuel ex2_c1) ex2_zero in
+   sstatus (rs_s r) = ST_CONVERGED /\ rs_exit r = BX_DONE /\ rs_iters r = 18) /\
+  (let r := body2_run B2Osga ex2_parab ex2_c2 (b2_fuel ex2_c2) ex2_zero in rs_exit r = BX_BUDGET /\ rs_iters r = 13) /\
+  (let r := body2_run B2Pgm ex2_parab ex2_c3 (b2_fuel ex2_c3) ex2_zero in sstatus (rs_s r) = ST_CONVERGED /\ rs_iters r = 11) /\
+  (let r := body2_run B2Pgm ex2_wall ex2_c3 (b2_fuel ex2_c3) ex2_zero in sstatus (rs_s r) = ST_FAILED /\ rs_ok r = false) /\
+  rs_exit (body2_run B2Asga4 ex2_parab ex2_c3 (b2_fuel ex2_c3) ex2_three) = BX_PRE /\
+  ffin (fst (o2_eval ex2_parab 0 ex2_zero)) = true /\ asga_cap_ok B2Asga2 ex2_c3 /\ 1 <= c2_lsmax ex2_c3 /\
+  (c2_lsmax ex2_c3 <= 100 /\ 0 <= c2_n ex2_c3) /\
+  (exists g, PrimFloat.is_finite g = true /\ PrimFloat.ltb g f_eps = false) /\
+  rule_ok ex2_parab (pgm_rule ex2_parab ex2_c3 ex2_zero) (2 * Z.max 0 (pgm_cap ex2_c3)) true (fun _ _ => True).
+Proof.
+  split; [vm_compute; repeat split; reflexivity|]. split; [vm_compute; repeat split; reflexivity|].
+  split; [vm_compute; repeat split; reflexivity|]. split; [vm_compute; repeat split; reflexivity|].
+  split; [vm_compute; reflexivity|]. split; [reflexivity|]. split; [intros _; vm_compute; discriminate|].
+  split; [vm_compute; discriminate|]. split; [split; vm_compute; discriminate|].
+  split; [exists PrimFloat.one; split; reflexivity|exact (pgm_ok ex2_parab ex2_c3 ex2_zero)].
+Qed.
